@@ -183,7 +183,7 @@ var coreKinds = []string{"statefulset-pod", "statefulset-pod", "deployment-pod",
 	"tapp-pod", "customkind-pod", "barepod", "pooled-statefulset-pod", "pooled-deployment-pod", "pooled-barepod",
 	"pooled-customkind-pod", "app-prefix", "pool-prefix", "reserved-freetext", "reserved-podkey", "reserved-poolkey",
 	"free", "free",
-	"statefulset-pod", "barepod"}
+	"statefulset-pod", "barepod", "app-prefix", "pool-prefix", "app-prefix", "pool-prefix"}
 
 func ownerClassOfKind(kind string) string {
 	k := strings.TrimPrefix(kind, "pooled-")
@@ -234,6 +234,7 @@ func (c *apiCase) build() bool {
 	var specificSlots []*slot
 	var reservedSlots []*slot
 	sharedPods := []*slot{}
+	prefixSlots := map[string][]*slot{}
 	for n, oi := range order {
 		ip := all[oi]
 		var kind string
@@ -273,6 +274,22 @@ func (c *apiCase) build() bool {
 			s.Kind, s.Key, s.g, s.ko, s.Presence = o.Kind, o.Key, o.g, o.ko, o.Presence
 			s.Via = "specific"
 			specificSlots = append(specificSlots, s)
+			continue
+		}
+		// several IPs legitimately share one prefix key: IPs held in reserve for a deployment are all keyed
+		// dp_<ns>_<app>_, pre-allocated pool IPs are all keyed pool__<pool>_
+		if ps := prefixSlots[kind]; len(ps) == 1 || (len(ps) > 1 && r.Intn(3) != 0) {
+			o := ps[r.Intn(len(ps))]
+			s.Key, s.ko = o.Key, o.ko
+			if r.Intn(6) == 0 {
+				s.Via = "subnet"
+				subnetSlots = append(subnetSlots, s)
+				c.slots[ip] = &slot{IP: ip, Kind: "free", Via: "none"}
+			} else {
+				s.Via = "specific"
+				specificSlots = append(specificSlots, s)
+			}
+			prefixSlots[kind] = append(ps, s)
 			continue
 		}
 		// everything else derives from a generated pod
@@ -318,9 +335,11 @@ func (c *apiCase) build() bool {
 		case "app-prefix":
 			s.Key = ko.PoolPrefix() // what unbindDpPod reserves an immutable deployment's IP under
 			s.g = nil
+			prefixSlots[kind] = append(prefixSlots[kind], s)
 		case "pool-prefix":
 			s.Key = ko.PoolPrefix()
 			s.g = nil
+			prefixSlots[kind] = append(prefixSlots[kind], s)
 		case "textpool-pod":
 			s.Kind = "textpool-" + g.PoolClass + "-pod"
 			s.Key = ko.KeyInDB
@@ -441,6 +460,24 @@ func (c *apiCase) build() bool {
 		if d[ip] != c.slots[ip].Key {
 			c.broken = fmt.Sprintf("population mismatch: ip %s has key %q, expected %q", ip, d[ip], c.slots[ip].Key)
 			return false
+		}
+	}
+
+	groups := map[string]map[string]int{}
+	for _, ip := range c.allIPs {
+		if s := c.slots[ip]; s.Key != "" && !s.Reserved {
+			if groups[s.Kind] == nil {
+				groups[s.Kind] = map[string]int{}
+			}
+			groups[s.Kind][s.Key]++
+		}
+	}
+	for kind, m := range groups {
+		for _, n := range m {
+			if n >= 2 {
+				c.run.Count("api_shared_key_groups_"+kind, 1)
+				c.run.Max("max_api_ips_under_one_key", int64(n))
+			}
 		}
 	}
 
@@ -1064,6 +1101,272 @@ func (c *apiCase) releasablePosts(lr *listResp, state map[string]string) map[str
 	return state
 }
 
+// ---------------------------------------------------------------------------------------------------------------
+// batch laws: several listed entries in ONE POST
+
+// batchable says whether the batch laws post this listed entry as "must be released". The free-text pool class with
+// '_' is left out: it cannot be released even alone and has its own signature.
+func (c *apiCase) batchable(e entry) bool {
+	s := c.slots[e.IP]
+	return s != nil && e.Releasable && !strings.HasPrefix(s.Kind, "textpool-poolname-with-underscore")
+}
+
+// checkBatch judges one POST that carried mustFree (listed releasable entries) and mustStay (ips posted that must not
+// be freed and must be reported in `unreleased`). Everything else must be untouched.
+// otherKeys are the allocation keys the fields of the other posted entries (foreign-owner entry) spell.
+func (c *apiCase) checkBatch(tag string, state map[string]string, mustFree []entry, mustStay []string, otherKeys []string,
+	code int, rr *releaseResp, sent string, err error) map[string]string {
+	after := c.dump()
+	keyCount := map[string]int{}
+	for _, k := range otherKeys {
+		keyCount[k]++
+	}
+	var postedSlots []*slot
+	for _, e := range mustFree {
+		keyCount[c.slots[e.IP].Key]++
+		postedSlots = append(postedSlots, c.slots[e.IP])
+	}
+	sharedKinds := map[string]bool{}
+	for _, e := range mustFree {
+		if s := c.slots[e.IP]; keyCount[s.Key] >= 2 {
+			sharedKinds[s.Kind] = true
+		}
+	}
+	c.run.Count("api_batch_posts_"+tag, 1)
+	c.run.Count("api_batch_entries_posted", int64(len(mustFree)+len(mustStay)))
+	c.run.Max("max_api_batch_entries", int64(len(mustFree)+len(mustStay)))
+	if len(sharedKinds) > 0 {
+		c.run.Count("api_batch_posts_with_entries_sharing_key", 1)
+		for k := range sharedKinds {
+			c.run.Count("api_batch_shared_key_"+k, 1)
+		}
+	}
+	reported := map[string]int{}
+	for _, ip := range rr.Unreleased {
+		reported[ip]++
+	}
+	w := map[string]interface{}{"batch": tag, "posted": json.RawMessage(sent), "http": code, "response": rr, "err": fmt.Sprint(err),
+		"must_be_released": postedSlots, "must_stay_and_be_reported": mustStay}
+	posted := map[string]bool{}
+	allFreed := true
+	for _, e := range mustFree {
+		posted[e.IP] = true
+		s := c.slots[e.IP]
+		if after[e.IP] == "" {
+			c.run.Count("api_batch_released_"+s.Kind, 1)
+			continue
+		}
+		allFreed = false
+		w2 := copyW(w)
+		w2["not_released"] = s
+		w2["reported_unreleased"] = reported[e.IP] > 0
+		switch {
+		case reported[e.IP] == 0 && keyCount[s.Key] >= 2:
+			c.violate("batch-release-dropped-entry-sharing-key", fmt.Sprintf(
+				"%d listed releasable entries posted in one request, %d of them share key %q: ip %s is neither released nor reported unreleased (HTTP %d unreleased=%v)",
+				len(mustFree), keyCount[s.Key], s.Key, e.IP, code, rr.Unreleased), w2)
+		case reported[e.IP] == 0:
+			c.violate("batch-release-dropped-entry-"+s.Kind, fmt.Sprintf(
+				"listed releasable entry for ip %s (key %q) posted in a batch of %d is neither released nor reported unreleased (HTTP %d)",
+				e.IP, s.Key, len(mustFree)+len(mustStay), code), w2)
+		default:
+			c.violate("batch-release-entry-not-released-"+s.Kind, fmt.Sprintf(
+				"listed releasable entry for ip %s (key %q) posted in a batch of %d was not released: HTTP %d unreleased=%v reasons=%v",
+				e.IP, s.Key, len(mustFree)+len(mustStay), code, rr.Unreleased, rr.Reasons), w2)
+		}
+	}
+	stay := map[string]bool{}
+	for _, ip := range mustStay {
+		stay[ip] = true
+	}
+	for _, ch := range diff(state, after) {
+		if posted[ch.IP] && ch.After == "" {
+			continue
+		}
+		w2 := copyW(w)
+		w2["change"] = ch
+		w2["slot"] = c.slots[ch.IP]
+		if live(c.slots[ch.IP]) && ch.After == "" {
+			c.violate("release-freed-live-pod-ip-"+c.slots[ch.IP].Kind, fmt.Sprintf("POST freed %s of live pod (key %q)", ch.IP, ch.Before), w2)
+		}
+		if stay[ch.IP] {
+			c.violate("batch-mixed-changed-ip-that-must-stay-"+c.slots[ch.IP].Kind, fmt.Sprintf(
+				"ip %s posted as non-releasable / with a foreign owner's fields changed: key %q -> %q", ch.IP, ch.Before, ch.After), w2)
+		} else {
+			c.violate("batch-release-changed-other-ip", fmt.Sprintf("ip %s was not posted but changed: key %q -> %q", ch.IP, ch.Before, ch.After), w2)
+		}
+	}
+	// the response
+	wantCode := 200
+	if len(mustStay) > 0 {
+		wantCode = 202
+	}
+	if allFreed {
+		okReport := len(rr.Unreleased) == len(mustStay)
+		for _, ip := range mustStay {
+			if reported[ip] == 0 {
+				okReport = false
+			}
+		}
+		switch {
+		case !okReport && len(mustStay) > 0:
+			c.violate("batch-mixed-unreleased-report-mismatch", fmt.Sprintf(
+				"mixed batch: unreleased=%v, expected exactly the non-releasable and foreign-owner ips %v (HTTP %d)", rr.Unreleased, mustStay, code), w)
+		case !okReport || code != wantCode:
+			c.violate("batch-release-status-mismatch", fmt.Sprintf(
+				"all %d releasable entries of the batch were released, but the response is HTTP %d (want %d) unreleased=%v", len(mustFree), code, wantCode, rr.Unreleased), w)
+		default:
+			c.run.Count("api_batch_posts_ok_"+tag, 1)
+			c.run.Nontrivial(fmt.Sprintf("batch|%s|n=%d|shared=%v", tag, len(mustFree)+len(mustStay), len(sharedKinds) > 0))
+		}
+	}
+	return after
+}
+
+// pageBatch lists one page of the given size and posts ALL its releasable entries back verbatim in one request.
+func (c *apiCase) pageBatch(size int, state map[string]string) map[string]string {
+	q := url.Values{"size": {fmt.Sprint(size)}}
+	lr, _, _, err := c.list(q)
+	if err != nil || lr == nil || lr.TotalPages == nil {
+		return state // judged by the paging law
+	}
+	if *lr.TotalPages > 1 {
+		// prefer a page that has something to release
+		for try := 0; try < 6; try++ {
+			q.Set("page", fmt.Sprint(c.r.Intn(*lr.TotalPages)))
+			l2, _, _, err := c.list(q)
+			if err != nil || l2 == nil {
+				return state
+			}
+			lr = l2
+			n := 0
+			for _, e := range lr.entries {
+				if c.batchable(e) {
+					n++
+				}
+			}
+			if n >= 2 {
+				break
+			}
+		}
+	}
+	var mustFree []entry
+	var raws []json.RawMessage
+	for _, e := range lr.entries {
+		if c.batchable(e) {
+			mustFree = append(mustFree, e)
+			raws = append(raws, e.raw)
+		}
+	}
+	tag := fmt.Sprintf("page-size-%d", size)
+	if len(mustFree) == 0 {
+		c.run.Count("api_batch_pages_without_releasable_"+tag, 1)
+		return state
+	}
+	code, rr, sent, err := c.post(raws...)
+	return c.checkBatch(tag, state, mustFree, nil, nil, code, rr, sent, err)
+}
+
+// mixedBatch posts, in one request, some releasable entries (a group sharing one key when there is one), some listed
+// non-releasable entries (live pods, free ips) and one entry with a foreign owner's ip.
+func (c *apiCase) mixedBatch(lr *listResp, state map[string]string) map[string]string {
+	var rel, nonrelPod, nonrelFree []entry
+	byKey := map[string][]entry{}
+	for _, e := range lr.entries {
+		s := c.slots[e.IP]
+		if s == nil {
+			continue
+		}
+		switch {
+		case c.batchable(e):
+			rel = append(rel, e)
+			byKey[s.Key] = append(byKey[s.Key], e)
+		case e.Releasable || s.Reserved:
+			// text pool class / reserved objects: judged (observed) elsewhere
+		case s.Kind == "free":
+			nonrelFree = append(nonrelFree, e)
+		case s.g != nil && s.Presence != "absent":
+			nonrelPod = append(nonrelPod, e)
+		}
+	}
+	if len(rel) < 2 {
+		c.run.Count("api_mixed_batch_skipped_too_few_releasable", 1)
+		return state
+	}
+	chosen := map[string]bool{}
+	var mustFree []entry
+	take := func(e entry) {
+		if !chosen[e.IP] {
+			chosen[e.IP] = true
+			mustFree = append(mustFree, e)
+		}
+	}
+	var groups []string
+	for k, es := range byKey {
+		if len(es) >= 2 {
+			groups = append(groups, k)
+		}
+	}
+	sort.Strings(groups)
+	if len(groups) > 0 && c.r.Intn(4) != 0 {
+		for _, e := range byKey[groups[c.r.Intn(len(groups))]] {
+			take(e)
+		}
+	}
+	for k := 1 + c.r.Intn(3); k > 0; k-- {
+		take(rel[c.r.Intn(len(rel))])
+	}
+	var mustStay, otherKeys []string
+	var raws []json.RawMessage
+	for _, e := range mustFree {
+		raws = append(raws, e.raw)
+	}
+	if len(nonrelPod) > 0 {
+		e := nonrelPod[c.r.Intn(len(nonrelPod))]
+		raws = append(raws, e.raw)
+		mustStay = append(mustStay, e.IP)
+	}
+	if len(nonrelFree) > 0 {
+		e := nonrelFree[c.r.Intn(len(nonrelFree))]
+		raws = append(raws, e.raw)
+		mustStay = append(mustStay, e.IP)
+	}
+	// a foreign-owner entry: the fields of a releasable entry that is not itself in the batch, with the ip of another
+	// owner that is not otherwise posted
+	var a *entry
+	for _, i := range c.r.Perm(len(rel)) {
+		if !chosen[rel[i].IP] {
+			a = &rel[i]
+			break
+		}
+	}
+	if a != nil {
+		for _, i := range c.r.Perm(len(lr.entries)) {
+			b := lr.entries[i]
+			sb := c.slots[b.IP]
+			// state, not the build-time ground truth: earlier phases may have released b's ip already
+			if sb == nil || state[b.IP] == "" || chosen[b.IP] || b.IP == a.IP || state[b.IP] == state[a.IP] {
+				continue
+			}
+			dup := false
+			for _, ip := range mustStay {
+				dup = dup || ip == b.IP
+			}
+			if dup {
+				continue
+			}
+			raws = append(raws, withField(a.raw, "ip", b.IP))
+			mustStay = append(mustStay, b.IP)
+			otherKeys = append(otherKeys, state[a.IP])
+			c.run.Count("api_mixed_batch_foreign_entries", 1)
+			break
+		}
+	}
+	c.r.Shuffle(len(raws), func(i, j int) { raws[i], raws[j] = raws[j], raws[i] })
+	code, rr, sent, err := c.post(raws...)
+	return c.checkBatch("mixed", state, mustFree, mustStay, otherKeys, code, rr, sent, err)
+}
+
 // runAPICase runs one populated IPAM through all API laws.
 func runAPICase(run *evid.Run, idx int) {
 	c := newAPICase(run, idx)
@@ -1120,7 +1423,17 @@ func runAPICase(run *evid.Run, idx int) {
 	state = c.crossPosts(l0, state)
 	// (b) releasable:false stays
 	state = c.unreleasablePosts(l0, state)
-	// (b) releasable:true goes, one at a time, from a fresh listing
+	// batch laws: all releasable entries of one page in ONE request; a mixed batch; on odd cases "everything"
+	state = c.pageBatch([]int{2, 3, 7, 10}[c.r.Intn(4)], state)
+	lm, ok := c.fullList()
+	if !ok {
+		return
+	}
+	state = c.mixedBatch(lm, state)
+	if idx%2 == 1 {
+		state = c.pageBatch(9999, state)
+	}
+	// (b) releasable:true goes, one at a time, from a fresh listing (on odd cases only what the batches left)
 	l1, ok := c.fullList()
 	if !ok {
 		return
